@@ -45,6 +45,7 @@ func (sc *Scenario) Exec() explore.Exec {
 			s.CheckReads()
 			s.CheckFlushes(rootsBefore)
 			s.CheckFinal()
+			s.CheckSnapshot()
 		})
 		harness.SetEventHook(nil)
 		out := &explore.Outcome{}
